@@ -111,7 +111,9 @@ func (s *Server) handleService(ctx context.Context, sc *uasc.SecureChannel, reqI
 	typeID := ua.ServiceTypeID(req)
 	h, ok := s.handlers[typeID]
 	if ok {
-		resp, err = h(sc, req, reqID)
+		if err = s.checkSession(typeID, req); err == nil {
+			resp, err = h(sc, req, reqID)
+		}
 	} else {
 		if typeID == 0 {
 			if s.cfg.logger != nil {
@@ -139,6 +141,39 @@ func (s *Server) handleService(ctx context.Context, sc *uasc.SecureChannel, reqI
 			s.cfg.logger.Warn("Error sending response: %s\n", err)
 		}
 	}
+}
+
+// sessionless lists the services which can be called without a session:
+// the Discovery Service Set and session establishment.
+var sessionless = map[uint16]bool{
+	id.FindServersRequest_Encoding_DefaultBinary:          true,
+	id.FindServersOnNetworkRequest_Encoding_DefaultBinary: true,
+	id.GetEndpointsRequest_Encoding_DefaultBinary:         true,
+	id.RegisterServerRequest_Encoding_DefaultBinary:       true,
+	id.RegisterServer2Request_Encoding_DefaultBinary:      true,
+	id.CreateSessionRequest_Encoding_DefaultBinary:        true,
+	id.ActivateSessionRequest_Encoding_DefaultBinary:      true,
+}
+
+// checkSession returns an error unless the service can be called without a
+// session or the request carries the authentication token of a session that
+// was created and activated on this server and has not been closed.
+func (s *Server) checkSession(typeID uint16, req ua.Request) error {
+	if sessionless[typeID] {
+		return nil
+	}
+	hdr := req.Header()
+	if hdr == nil || hdr.AuthenticationToken == nil {
+		return ua.StatusBadSessionIDInvalid
+	}
+	sess := s.sb.Session(hdr.AuthenticationToken)
+	if sess == nil {
+		return ua.StatusBadSessionIDInvalid
+	}
+	if !sess.activated {
+		return ua.StatusBadSessionNotActivated
+	}
+	return nil
 }
 
 func responseHeader(reqID uint32, statusCode ua.StatusCode) *ua.ResponseHeader {
